@@ -79,6 +79,7 @@ type Exec struct {
 	allocBound   *Term
 	vacChecks    []*Obligation
 	localRefs    map[string]bool
+	opaqueInterior bool // see materialize
 	strictSlices bool // slice values coming from outside (parameters, results of unmodelled calls) do not alias embedded arrays
 	topParams    []Val
 	curResults   []Val
@@ -768,6 +769,14 @@ func (f *frame) run(st *BState) {
 func (f *frame) materialize(v Val, t types.Type) Val {
 	if v.Loc != nil && len(v.T) == 0 {
 		if !v.Loc.Root || len(v.Loc.Chain) != 0 {
+			if f.x.opaqueInterior {
+				// a pointer into the middle of an object that only flows into an unspecified call: an opaque
+				// non-nil reference (the call havocs all memory, so its identity does not matter)
+				r := f.x.S.Declare("interior", SInt)
+				f.assume(IntLt(IntConst(0), r))
+				f.assume(IntLt(r, f.cur.heap.next))
+				return Val{T: []Term{r}, Typ: t}
+			}
 			abort("interior pointer used as a first-class value in %s", f.dispName)
 		}
 		return Val{T: []Term{v.Loc.Ref}, Typ: t, Loc: v.Loc}
@@ -936,6 +945,11 @@ func (f *frame) enterLoop(li *loopInfo, phis []*ssa.Phi) {
 			x.addObligation("INV-ENTRY", fnName, fmt.Sprintf("loop%d:%s", li.ordinal, clauseLabel(inv)), inv.Text, entryPC, t, nil)
 		}
 	}
+	if !x.discovery {
+		for _, ii := range x.implicitInvs(entryHeap) {
+			x.addObligation("INV-ENTRY", fnName, fmt.Sprintf("loop%d:typeinv:%s", li.ordinal, ii.name), "declared data-structure invariant of parameter "+ii.name+" holds at the loop head", entryPC, ii.t, nil)
+		}
+	}
 	// havoc
 	li.phiVals = map[*ssa.Phi]Val{}
 	for _, ph := range phis {
@@ -996,6 +1010,11 @@ func (f *frame) enterLoop(li *loopInfo, phis []*ssa.Phi) {
 	}
 	f.cur = &BState{pc: entryPC, heap: h}
 	li.pcHead = entryPC
+	if !x.discovery {
+		for _, ii := range x.implicitInvs(h) {
+			x.S.AssertUnder(entryPC, ii.t)
+		}
+	}
 	if li.lc == nil {
 		if !x.discovery {
 			x.note("loop %d of %s has no invariant: executed with invariant `true`", li.ordinal, fnName)
@@ -1059,6 +1078,9 @@ func (f *frame) backEdge(b *ssa.BasicBlock, k int, head *ssa.BasicBlock) {
 	}
 	if predIdx < 0 {
 		abort("back edge bookkeeping")
+	}
+	for _, ii := range x.implicitInvs(f.cur.heap) {
+		x.addObligation("INV-STEP", f.dispName, fmt.Sprintf("loop%d:typeinv:%s", li.ordinal, ii.name), "declared data-structure invariant of parameter "+ii.name+" is preserved by the loop body", cond, ii.t, nil)
 	}
 	if li.lc == nil {
 		if x.explicitMod {
@@ -1585,7 +1607,9 @@ func (f *frame) makeInterface(t *ssa.MakeInterface) {
 	x := f.x
 	// an interface value is an opaque positive handle; the dynamic type is recorded
 	x.S.DeclareFun("dyntype", []Sort{SInt}, SInt)
+	x.opaqueInterior = true
 	v := f.materialize(f.val(t.X), t.X.Type())
+	x.opaqueInterior = false
 	var r Term
 	if len(v.T) == 1 && v.T[0].Sort == SInt {
 		// pointer-like payload: handle determined by (type, payload)
@@ -1865,6 +1889,33 @@ func (x *Exec) typeInvFacts(t types.Type, vals []Term, heap *HeapState) []Term {
 			n := nLeaves(u.At(i).Type())
 			out = append(out, x.typeInvFacts(u.At(i).Type(), vals[lo:lo+n], heap)...)
 			lo += n
+		}
+	}
+	return out
+}
+
+type implicitInv struct {
+	name string
+	t    Term
+}
+
+// implicitInvs: the declared type invariants of the verified function's pointer parameters, used as implicit
+// (checked) invariants of every loop.
+func (x *Exec) implicitInvs(heap *HeapState) []implicitInv {
+	if len(x.W.Contracts.TypeInvs) == 0 || x.topParams == nil {
+		return nil
+	}
+	var out []implicitInv
+	for i, p := range x.fn.Params {
+		if _, ok := p.Type().Underlying().(*types.Pointer); !ok {
+			continue
+		}
+		save := x.notes
+		x.notes = map[string]bool{}
+		facts := x.typeInvFacts(p.Type(), x.topParams[i].T, heap)
+		x.notes = save
+		for _, f := range facts {
+			out = append(out, implicitInv{p.Name(), f})
 		}
 	}
 	return out
